@@ -1423,8 +1423,9 @@ fn build_moov_box(
     let video_duration_ms = to_ms(video_tables.total_duration());
     let audio_duration_ms = audio.map(|(_, tables)| to_ms(tables.total_duration()));
     let movie_duration_ms = video_duration_ms.max(audio_duration_ms.unwrap_or(0));
+    let next_track_id = if audio.is_some() { 3 } else { 2 };
 
-    let mvhd_payload = build_mvhd_payload(movie_duration_ms);
+    let mvhd_payload = build_mvhd_payload(movie_duration_ms, next_track_id);
     let mvhd_box = build_box(b"mvhd", &mvhd_payload);
     let trak_box = build_trak_box(video, video_tables, video_config, metadata, video_duration_ms);
 
@@ -2367,7 +2368,7 @@ fn build_ftyp_box() -> Vec<u8> {
     build_box(b"ftyp", &payload)
 }
 
-fn build_mvhd_payload(duration_ms: u32) -> Vec<u8> {
+fn build_mvhd_payload(duration_ms: u32, next_track_id: u32) -> Vec<u8> {
     let mut payload = Vec::new();
     payload.extend_from_slice(&0u32.to_be_bytes()); // version + flags
     payload.extend_from_slice(&0u32.to_be_bytes()); // creation_time
@@ -2395,7 +2396,7 @@ fn build_mvhd_payload(duration_ms: u32) -> Vec<u8> {
     for _ in 0..6 {
         payload.extend_from_slice(&0u32.to_be_bytes()); // pre_defined
     }
-    payload.extend_from_slice(&2u32.to_be_bytes()); // next_track_ID
+    payload.extend_from_slice(&next_track_id.to_be_bytes()); // next_track_ID
     payload
 }
 
